@@ -77,11 +77,11 @@ pub static C29: PropDef = PropDef {
     id: "C29",
     level: "exploration",
     engine: "sweep",
-    rule: "every sequence of length <= 4 (thorough 5) over a 20-item menu on 4 qubits (1-qubit gates, 2-qubit gates on 7 ordered pairs, two 3-qubit gates, MEASURE on each qubit, a classical instruction, a parameterised gate reading memory, NOP) x thresholds k = 0..4: QubitGraph::gate_depth(k) vs a longest-chain dynamic program. non-trivial = sequence with at least two instructions sharing a qubit",
+    rule: "every sequence of length <= 4 (thorough 6) over a 20-item menu on 4 qubits (1-qubit gates, 2-qubit gates on 7 ordered pairs, two 3-qubit gates, MEASURE on each qubit, a classical instruction, a parameterised gate reading memory, NOP) x thresholds k = 0..4: QubitGraph::gate_depth(k) vs a longest-chain dynamic program. non-trivial = sequence with at least two instructions sharing a qubit",
     assumptions: &["reference: depth[i] = [gate on >= k qubits] + max depth over the previous instruction on each of its qubits; no gate repeats a qubit"],
     run: |ctx| {
         let parsed: Vec<Instruction> = C29_MENU.iter().map(|s| Instruction::from_str(s).unwrap()).collect();
-        let l = ctx.tier.pick(4, 5);
+        let l = ctx.tier.pick(4, 6);
         for len in 1..=l {
             sequences(C29_MENU.len(), len, |s| {
                 if !ctx.take(|| json!({"body": s.iter().map(|k| C29_MENU[*k]).collect::<Vec<_>>()})) {
@@ -245,7 +245,7 @@ pub static C30: PropDef = PropDef {
     id: "C30",
     level: "exploration",
     engine: "sweep",
-    rule: "declared regions r:REAL n:INTEGER b:BIT o:OCTET, undeclared u. (a) every program of 1-2 (thorough 3) instructions from a ~250-instruction typed menu (every classical operator with compatible and incompatible operand types, comparisons, LOAD/STORE/CONVERT/EXCHANGE, gates): verdict == conjunction of single-instruction verdicts; invariant under reordering, duplication and the renaming r->rr, n->nn. (b) SET-PHASE / SET-SCALE / SET-FREQUENCY / SHIFT-PHASE / SHIFT-FREQUENCY x every expression of depth <= 2 over leaves {r, n, u, %v, 1, 1i, pi}: accepted iff the expression is real-valued by the recursive rule. non-trivial = program with an instruction that fails alone, or expression containing a non-real leaf",
+    rule: "declared regions r:REAL n:INTEGER b:BIT o:OCTET, undeclared u. (a) every program of 1-2 instructions from a ~250-instruction typed menu (thorough: also every program of 3 over every second menu item) (every classical operator with compatible and incompatible operand types, comparisons, LOAD/STORE/CONVERT/EXCHANGE, gates): verdict == conjunction of single-instruction verdicts; invariant under reordering, duplication and the renaming r->rr, n->nn. (b) SET-PHASE / SET-SCALE / SET-FREQUENCY / SHIFT-PHASE / SHIFT-FREQUENCY x every expression of depth <= 2 over leaves {r, n, u, %v, 1, 1i, pi}: accepted iff the expression is real-valued by the recursive rule. non-trivial = program with an instruction that fails alone, or expression containing a non-real leaf",
     assumptions: &["reference predicate ref_real(): declared REAL memory, real numbers or pi, combined by any operator / function, no variables"],
     run: |ctx| {
         let menu = c30_menu();
@@ -254,7 +254,7 @@ pub static C30: PropDef = PropDef {
         ctx.bound("menu_ok_alone", json!(single.iter().filter(|x| **x).count()));
         let l = ctx.tier.pick(2, 3);
         for len in 1..=l {
-            let step = if len == 3 { 5 } else { 1 };
+            let step = if len == 3 { 2 } else { 1 };
             let idxs: Vec<usize> = (0..menu.len()).step_by(step).collect();
             sequences(idxs.len(), len, |s0| {
                 let s: Vec<usize> = s0.iter().map(|k| idxs[*k]).collect();
@@ -449,11 +449,11 @@ pub static C32: PropDef = PropDef {
     id: "C32",
     level: "exploration",
     engine: "sweep",
-    rule: "finite lattice: 9 built-in waveform instances (flat, gaussian, drag_gaussian, erf_square, hermite_gaussian, raised_cosine with rolloff 0 / 0.5 / 1, boxcar_kernel) x sample rate {1, 4, 1e9} x duration k/rate for k = 0..6 (thorough 0..12) x 8 (pad_left, pad_right) pairs in units of 1/rate incl. whole, one-sided fractional and both-sided fractional paddings (padded kinds) x scale {0, 0.5, -2, 1} x phase {0, 0.25, -0.125} (thorough 5 x 5), concrete and partial APIs with each of scale / phase known or unknown: sample count, linearity in scale, phase rotation, zero scale, placeholder length, partial == concrete once known. non-trivial = case that samples successfully",
+    rule: "finite lattice: 9 built-in waveform instances (flat, gaussian, drag_gaussian, erf_square, hermite_gaussian, raised_cosine with rolloff 0 / 0.5 / 1, boxcar_kernel) x sample rate {1, 4, 1e9} x duration k/rate for k = 0..6 (thorough 0..48) x 8 (pad_left, pad_right) pairs in units of 1/rate incl. whole, one-sided fractional and both-sided fractional paddings (padded kinds) x scale {0, 0.5, -2, 1} x phase {0, 0.25, -0.125} (thorough 5 x 5), concrete and partial APIs with each of scale / phase known or unknown: sample count, linearity in scale, phase rotation, zero scale, placeholder length, partial == concrete once known. non-trivial = case that samples successfully",
     assumptions: &["metamorphic oracle (no reference envelope); durations exactly aligned with the sample rate; a lattice, not all reals"],
     run: |ctx| {
         let thorough = ctx.tier == Tier::Thorough;
-        let kmax = ctx.tier.pick(6u32, 12);
+        let kmax = ctx.tier.pick(6u32, 48);
         for ri in 0..RATES.len() {
             for k in 0..=kmax {
                 for pi in 0..PADS.len() {
